@@ -895,3 +895,102 @@ Proof.
   intros Hr. destruct (accepts_prefix _ _ _ _ Hr) as [s1 [_ H2]].
   cbn [accepts step] in H2. eapply cancelled_no_spawn; [|exact H2]. reflexivity.
 Qed.
+
+(* ------------------------------------------------------------------ every reachable state can be drained *)
+Definition measure (s : state) : nat :=
+  (2 * (length (st_hi s) + length (st_ready s)) + length (st_running s))%nat.
+
+Lemma remove_job_length j r o : find_job j r = Some o -> S (length (remove_job j r)) = length r.
+Proof.
+  induction r as [|[k ok] r IH]; [discriminate|]. cbn [find_job remove_job fst snd length].
+  destruct (k =? j); [reflexivity|]. intros H. cbn [length]. rewrite (IH H). reflexivity.
+Qed.
+
+Lemma drain n alg (Hpos : 0 < n) : forall m ls s,
+  reach n alg ls s -> (measure s <= m)%nat ->
+  exists ls' s', reach n alg (ls ++ ls') s' /\ queue_empty s' = true /\ st_running s' = [] /\
+                 st_shutdown s' = st_shutdown s.
+Proof.
+  induction m as [|m IH]; intros ls s Hr Hm.
+  - exists [], s. rewrite app_nil_r. unfold measure in Hm. unfold queue_empty.
+    destruct (st_hi s); [|cbn [length] in Hm; lia]. destruct (st_ready s); [|cbn [length] in Hm; lia].
+    destruct (st_running s); [|cbn [length] in Hm; lia]. repeat split; try reflexivity. exact Hr.
+  - destruct (st_running s) as [|[l j] rest] eqn:Hrun.
+    + destruct (queue_empty s) eqn:Hq.
+      * exists [], s. rewrite app_nil_r. repeat split; try assumption; reflexivity.
+      * destruct (no_stuck _ _ _ _ Hr Hpos Hq) as [l [Hok [[Hb _]|[Hb [j [s1 Hs]]]]]].
+        { apply lane_busy_In in Hb. rewrite Hrun in Hb. destruct Hb. }
+        assert (Hr1 : reach n alg (ls ++ [Take l j]) s1) by (apply reach_snoc; exists s; split; assumption).
+        assert (Hm1 : (measure s1 <= m)%nat /\ st_shutdown s1 = st_shutdown s).
+        { cbn [step] in Hs. destruct (lane_ok s l && negb (lane_busy s l)); [|discriminate].
+          destruct (take_choice s j) as [[hi' rd']|] eqn:Htc; [|discriminate].
+          injection Hs as Hs. subst s1. unfold measure in *. proj. rewrite Hrun in *. cbn [length] in *.
+          split; [|reflexivity].
+          destruct (take_choice_cases _ _ _ _ Htc) as [[Hhi Hrd]|[Hhi [Hhi' [o [Hf [Hrd _]]]]]].
+          - subst rd'. rewrite Hhi in Hm. cbn [length] in Hm. lia.
+          - subst hi' rd'. rewrite Hhi in Hm. pose proof (remove_job_length _ _ _ Hf) as Hl. cbn [length] in *. lia. }
+        destruct Hm1 as [Hm1 Hsh1].
+        destruct (IH _ _ Hr1 Hm1) as [ls' [s' [Hr' [A [B C]]]]].
+        exists (Take l j :: ls'), s'. rewrite <- app_assoc in Hr'. cbn [app] in Hr'.
+        repeat split; try assumption. rewrite C. exact Hsh1.
+    + assert (Hs : exists s1, step s (Finish l) = Some s1 /\ (measure s1 <= m)%nat /\ st_shutdown s1 = st_shutdown s).
+      { cbn [step]. rewrite Hrun. cbn [find_lane fst snd]. rewrite N.eqb_refl. eexists. split; [reflexivity|].
+        unfold measure in *. proj. rewrite Hrun in Hm. cbn [remove_lane fst]. rewrite N.eqb_refl. cbn [length] in *.
+        split; [lia|reflexivity]. }
+      destruct Hs as [s1 [Hs [Hm1 Hsh1]]].
+      assert (Hr1 : reach n alg (ls ++ [Finish l]) s1) by (apply reach_snoc; exists s; split; assumption).
+      destruct (IH _ _ Hr1 Hm1) as [ls' [s' [Hr' [A [B C]]]]].
+      exists (Finish l :: ls'), s'. rewrite <- app_assoc in Hr'. cbn [app] in Hr'.
+      repeat split; try assumption. rewrite C. exact Hsh1.
+Qed.
+
+(* No job can be lost: from every reachable state of a queue with at least one lane the run can be completed to a
+   terminal state (destructor called, nothing queued, nothing running), where by [exactly_once] every job that was
+   ever added has finished exactly once. *)
+Theorem can_terminate n alg ls s :
+  0 < n -> reach n alg ls s ->
+  exists ls' s', reach n alg (ls ++ ls') s' /\ terminal s' = true /\ Permutation (st_finished s') (adds (ls ++ ls')).
+Proof.
+  intros Hpos Hr.
+  assert (Hsd : exists l1 s1, reach n alg (ls ++ l1) s1 /\ st_shutdown s1 = true).
+  { destruct (st_shutdown s) eqn:Hsh.
+    - exists [], s. rewrite app_nil_r. split; assumption.
+    - exists [Shutdown]. eexists. split; [apply reach_snoc; exists s; split; [exact Hr|]; cbn [step]; rewrite Hsh; reflexivity|].
+      reflexivity. }
+  destruct Hsd as [l1 [s1 [Hr1 Hsh1]]].
+  destruct (drain n alg Hpos _ _ _ Hr1 (le_n _)) as [ls' [s' [Hr' [A [B C]]]]].
+  exists (l1 ++ ls'), s'. rewrite app_assoc.
+  assert (Ht : terminal s' = true).
+  { unfold terminal. rewrite C, Hsh1, A, B. reflexivity. }
+  split; [exact Hr'|]. split; [exact Ht|].
+  destruct (exactly_once _ _ _ _ Hr' Ht) as [P _]. exact P.
+Qed.
+
+(* ------------------------------------------------------------------ non-vacuity: concrete runs *)
+Definition ex_run : list label :=
+  [Add 0 Normal [97] Outside; Add 1 Normal [98] Outside; Add 2 High [99] Outside;
+   Take 1 2; Take 0 0; Add 3 Normal [100] (FromLane 0); Spawn 0; Cancel; Finish 1; Take 1 1;
+   Shutdown; Finish 0; Take 0 3; Finish 0; Finish 1; Exit 0; Exit 1].
+
+Example ex_run_fifo_accepted :
+  exists s, reach 2 Fifo ex_run s /\ terminal s = true /\ st_finished s = [1; 3; 0; 2].
+Proof. eexists. split; [vm_compute; reflexivity|]. split; reflexivity. Qed.
+
+(* the name-priority scheduler takes the greatest name first: here job 1 ("b") before job 0 ("a") *)
+Definition ex_run_prio : list label :=
+  [Add 0 Normal [97] Outside; Add 1 Normal [98] Outside; Add 2 High [99] Outside;
+   Take 0 2; Finish 0; Take 0 1; Finish 0; Take 0 0; Shutdown; Finish 0; Exit 0].
+
+Example ex_run_prio_accepted : exists s, reach 1 NamePrio ex_run_prio s /\ terminal s = true.
+Proof. eexists. split; [vm_compute; reflexivity|reflexivity]. Qed.
+
+(* rejected: a second job on a busy lane; a job taken twice; FIFO order violated; spawn after cancel; more lanes than configured *)
+Example ex_rejects :
+  accepts (init 2 Fifo) [Add 0 Normal [] Outside; Add 1 Normal [] Outside; Take 0 0; Take 0 1] = None /\
+  accepts (init 2 Fifo) [Add 0 Normal [] Outside; Take 0 0; Take 1 0] = None /\
+  accepts (init 2 Fifo) [Add 0 Normal [] Outside; Add 1 Normal [] Outside; Take 0 1] = None /\
+  accepts (init 2 Fifo) [Add 0 Normal [] Outside; Take 0 0; Cancel; Spawn 0] = None /\
+  accepts (init 2 Fifo) [Add 0 Normal [] Outside; Take 2 0] = None /\
+  accepts (init 2 NamePrio) [Add 0 Normal [97] Outside; Add 1 Normal [98] Outside; Take 0 0] = None /\
+  accepts (init 2 Fifo) [Add 0 Normal [] Outside; Add 0 Normal [] Outside] = None.
+Proof. vm_compute. repeat split; reflexivity. Qed.
